@@ -117,6 +117,8 @@ const (
 	KIfaces = "ifaces" // []Ij
 	KAny    = "any"    // any
 	KAnys   = "anys"   // []any
+	KApp    = "app"    // *app.App: the container's own application component, by type
+	KArr    = "arr"    // [2]Ij: a fixed-size array of an interface type (no component is ever a candidate)
 )
 
 // Selectors.
@@ -169,7 +171,9 @@ func (p *Point) GoName() string {
 	return p.Field
 }
 
-func (p *Point) Single() bool { return p.Kind == KPtr || p.Kind == KIface || p.Kind == KAny }
+func (p *Point) Single() bool {
+	return p.Kind == KPtr || p.Kind == KIface || p.Kind == KAny || p.Kind == KApp
+}
 
 // Frame fields must never be written by the container.
 type Frame struct {
@@ -270,6 +274,9 @@ type Proc struct {
 	Props bool `json:"props,omitempty"`
 	// Lazy: the processor itself is marked LazyInit (like the container's own processors).
 	Lazy bool `json:"lazy,omitempty"`
+	// PropsRet: what PostProcessProperties returns next to a nil error: "" nil, "empty" a
+	// non-nil empty list, "same" the list it was given (the result carries no meaning).
+	PropsRet string `json:"propsRet,omitempty"`
 }
 
 // Callback names used in rules, events and fault sites.
